@@ -325,6 +325,7 @@ func (s *RecSectors) StoreSector(root types.Hash256, data *[proto4.SectorSize]by
 
 type Rig struct {
 	Net     *consensus.Network
+	Genesis types.Block
 	CM      *chain.Manager
 	WS      *testutil.EphemeralWalletStore
 	W       *wallet.SingleAddressWallet
@@ -400,7 +401,7 @@ func NewRig(hostKey types.PrivateKey, walletKey types.PrivateKey) (*Rig, error) 
 	if err != nil {
 		return nil, err
 	}
-	r := &Rig{Net: n, CM: cm, WS: ws, W: w, HostKey: hostKey, Rec: &Recorder{}}
+	r := &Rig{Net: n, Genesis: genesis, CM: cm, WS: ws, W: w, HostKey: hostKey, Rec: &Recorder{}}
 	r.EC = testutil.NewEphemeralContractor(cm)
 	r.Con = &RecContractor{Contractor: r.EC, Rec: r.Rec}
 	r.SS = testutil.NewEphemeralSectorStore()
@@ -480,6 +481,64 @@ func (r *Rig) Mine(n int) error {
 		}
 		time.Sleep(200 * time.Microsecond)
 	}
+}
+
+
+// Jump extends the chain by n empty blocks that are handed to the chain manager in ONE AddBlocks
+// call (one reorg notification for the whole jump): the blocks are mined on a private copy of the
+// chain first.  It then waits until the host's contractor has stopped moving and reports whether it
+// reached the chain's tip.
+func (r *Rig) Jump(n int) (bool, error) {
+	db, tipState, err := chain.NewDBStore(chain.NewMemDB(), r.Net, r.Genesis, nil)
+	if err != nil {
+		return false, err
+	}
+	side := chain.NewManager(db, tipState)
+	_, applied, err := r.CM.UpdatesSince(types.ChainIndex{}, 1<<30)
+	if err != nil {
+		return false, err
+	}
+	var have []types.Block
+	for _, cau := range applied {
+		have = append(have, cau.Block)
+	}
+	if err := side.AddBlocks(have); err != nil {
+		return false, err
+	}
+	blocks := make([]types.Block, 0, n)
+	for i := 0; i < n; i++ {
+		b, ok := minex.MineBlock(side, r.W.Address())
+		if !ok {
+			return false, errors.New("failed to mine block")
+		}
+		if err := side.AddBlocks([]types.Block{b}); err != nil {
+			return false, err
+		}
+		blocks = append(blocks, b)
+	}
+	if err := r.CM.AddBlocks(blocks); err != nil {
+		return false, err
+	}
+	if err := r.syncWallet(); err != nil {
+		return false, err
+	}
+	// settled = at the chain's tip, or unchanged for a while
+	last, _ := r.EC.Tip()
+	still := time.Now()
+	deadline := time.Now().Add(15 * time.Second)
+	for time.Now().Before(deadline) {
+		tip, _ := r.EC.Tip()
+		if tip == r.CM.Tip() {
+			return true, nil
+		}
+		if tip != last {
+			last, still = tip, time.Now()
+		} else if time.Since(still) > 1500*time.Millisecond {
+			return false, nil
+		}
+		time.Sleep(2 * time.Millisecond)
+	}
+	return false, nil
 }
 
 // SignedPrices returns p with TipHeight/ValidUntil/Signature filled in with the given key (the
